@@ -62,6 +62,7 @@ type Contract struct {
 	Uses         []*UseSpec
 	Asserts      []*UseSpec
 	Assumes      []*UseSpec // library facts assumed at a program point (listed in the trusted base)
+	Inits        []*UseSpec // ghost initialisation of a fresh channel: init <where>: chantag(ch) == e
 	Inline       bool
 	Iface        bool   // contract of an interface method: assumed for arbitrary implementations
 	Impl         string // "Type.Method": this function (or closure) must satisfy that interface contract
@@ -143,7 +144,27 @@ type TypeInv struct {
 	Text             string
 }
 
+// ChanInv: `chaninv <elem type>(ch, m): expr` - what every message m sent on a channel ch of that element type
+// satisfies. Checked at every send in a function under contract (and every send statement on such a channel in the
+// package must be in one), assumed for every message received.
+type ChanInv struct {
+	Pkg, Elem, Ch, Msg string
+	Expr               ast.Expr
+	Text               string
+}
+
+// LockInv: `lockinv T.mu(x) protects f, g: expr` - the invariant of the state that the mutex field mu of T protects.
+// Acquiring x.mu forgets the protected fields and assumes the invariant; releasing it proves the invariant.
+type LockInv struct {
+	Pkg, Type, Mutex, Param string
+	Protects                []string
+	Expr                    ast.Expr
+	Text                    string
+}
+
 type ContractSet struct {
+	ChanInvs  map[string]*ChanInv // pkgpath.<elem type text>
+	LockInvs  map[string]*LockInv // pkgpath.Type.mutex
 	Guards    map[string]string    // pkgpath.var -> name of the mutex (package-level variable) that guards it
 	TypeInvs  map[string]*TypeInv  // pkgpath.Type
 	Templates map[string]*Contract // pkg.Recv -> default contract of the methods of Recv
@@ -163,9 +184,11 @@ var lemmaHdr = regexp.MustCompile(`^lemma\s+([A-Za-z_][A-Za-z0-9_]*)\s*\(([^)]*)
 
 var langHdr = regexp.MustCompile(`^lang\s+([A-Za-z_][A-Za-z0-9_]*)\s*=\s*([a-z]+)\((.*)\)\s*$`)
 
+var chaninvHdr = regexp.MustCompile(`^chaninv\s+(\*?[A-Za-z_][A-Za-z0-9_.]*)\s*\(\s*([A-Za-z_][A-Za-z0-9_]*)\s*,\s*([A-Za-z_][A-Za-z0-9_]*)\s*\)\s*:\s*(.*)$`)
+var lockinvHdr = regexp.MustCompile(`^lockinv\s+([A-Za-z_][A-Za-z0-9_]*)\.([A-Za-z_][A-Za-z0-9_]*)\s*\(\s*([A-Za-z_][A-Za-z0-9_]*)\s*\)\s*protects\s+([A-Za-z0-9_, ]+):\s*(.*)$`)
 var poolHdr = regexp.MustCompile(`^pool\s+([A-Za-z_][A-Za-z0-9_]*)\s+(\S+)\s*:\s*(.*)$`)
 
-var clauseKeywords = []string{"package", "guarded", "usemethods", "typeinv", "noinv", "methods", "callsite", "func", "spec", "lemma", "lang", "pool", "interface", "implements", "let", "running", "assume", "requires", "ensures", "modifies", "loop", "use", "assert", "inline", "trusted", "pure"}
+var clauseKeywords = []string{"package", "chaninv", "lockinv", "init", "guarded", "usemethods", "typeinv", "noinv", "methods", "callsite", "func", "spec", "lemma", "lang", "pool", "interface", "implements", "let", "running", "assume", "requires", "ensures", "modifies", "loop", "use", "assert", "inline", "trusted", "pure"}
 
 func startsKeyword(s string) string {
 	for _, k := range clauseKeywords {
@@ -504,6 +527,44 @@ func (cs *ContractSet) parse(src, file, pkgPath string) {
 			}
 			cs.Specs[sf.Name] = sf
 			cur = nil
+		case "chaninv":
+			m := chaninvHdr.FindStringSubmatch(rc.text)
+			if m == nil {
+				cs.errf(file, rc.line, "bad chaninv directive %q", rc.text)
+				continue
+			}
+			e, err := parseSpecExpr(m[4])
+			if err != nil {
+				cs.errf(file, rc.line, "%v", err)
+				continue
+			}
+			if cs.ChanInvs == nil {
+				cs.ChanInvs = map[string]*ChanInv{}
+			}
+			cs.ChanInvs[pkgPath+"."+m[1]] = &ChanInv{Pkg: pkgPath, Elem: m[1], Ch: m[2], Msg: m[3], Expr: e, Text: m[4]}
+			cur = nil
+		case "lockinv":
+			m := lockinvHdr.FindStringSubmatch(rc.text)
+			if m == nil {
+				cs.errf(file, rc.line, "bad lockinv directive %q", rc.text)
+				continue
+			}
+			e, err := parseSpecExpr(m[5])
+			if err != nil {
+				cs.errf(file, rc.line, "%v", err)
+				continue
+			}
+			if cs.LockInvs == nil {
+				cs.LockInvs = map[string]*LockInv{}
+			}
+			li := &LockInv{Pkg: pkgPath, Type: m[1], Mutex: m[2], Param: m[3], Expr: e, Text: m[5]}
+			for _, f := range strings.Split(m[4], ",") {
+				if f = strings.TrimSpace(f); f != "" {
+					li.Protects = append(li.Protects, f)
+				}
+			}
+			cs.LockInvs[pkgPath+"."+m[1]+"."+m[2]] = li
+			cur = nil
 		case "pool":
 			m := poolHdr.FindStringSubmatch(rc.text)
 			if m == nil {
@@ -650,7 +711,7 @@ func (cs *ContractSet) parse(src, file, pkgPath string) {
 				default:
 					cs.errf(file, rc.line, "bad loop clause %q", rc.text)
 				}
-			case "use", "assert", "assume":
+			case "use", "assert", "assume", "init":
 				// use <where>: expr
 				k := strings.Index(rest, ":")
 				if k < 0 {
@@ -676,6 +737,8 @@ func (cs *ContractSet) parse(src, file, pkgPath string) {
 					cur.Uses = append(cur.Uses, u)
 				case "assert":
 					cur.Asserts = append(cur.Asserts, u)
+				case "init":
+					cur.Inits = append(cur.Inits, u)
 				default:
 					cur.Assumes = append(cur.Assumes, u)
 				}
